@@ -4,6 +4,8 @@ import (
 	"context"
 	"errors"
 	"fmt"
+	prometheusmetrics "github.com/attestantio/dirk/services/metrics/prometheus"
+	"net"
 	"os"
 	"sync"
 	"time"
@@ -60,6 +62,7 @@ type NodeOpts struct {
 	Perms       map[string][]*checker.Permissions
 	PeersMap    map[uint64]string // id -> "name:port"
 	Sender      sender.Service
+	Prometheus  bool // the services report to the Prometheus metrics service (as with metrics.listen-address set) instead of the null one
 	GenTimeout  time.Duration
 	AdminIPs    []string
 }
@@ -113,12 +116,24 @@ func NewNode(ctx context.Context, o NodeOpts) (*Node, error) {
 	if err != nil {
 		return nil, err
 	}
-	n.Signer, err = standardsigner.New(ctx, standardsigner.WithUnlocker(unl), standardsigner.WithChecker(n.Checker),
-		standardsigner.WithFetcher(n.Fetcher), standardsigner.WithRuler(rulerSvc))
+	var mon *prometheusmetrics.Service
+	if o.Prometheus {
+		mon = sharedPrometheus(ctx)
+	}
+	signerParams := []standardsigner.Parameter{standardsigner.WithUnlocker(unl), standardsigner.WithChecker(n.Checker),
+		standardsigner.WithFetcher(n.Fetcher), standardsigner.WithRuler(rulerSvc)}
+	if mon != nil {
+		signerParams = append(signerParams, standardsigner.WithMonitor(mon))
+	}
+	n.Signer, err = standardsigner.New(ctx, signerParams...)
 	if err != nil {
 		return nil, err
 	}
-	n.Lister, err = standardlister.New(ctx, standardlister.WithFetcher(n.Fetcher), standardlister.WithChecker(n.Checker), standardlister.WithRuler(rulerSvc))
+	listerParams := []standardlister.Parameter{standardlister.WithFetcher(n.Fetcher), standardlister.WithChecker(n.Checker), standardlister.WithRuler(rulerSvc)}
+	if mon != nil {
+		listerParams = append(listerParams, standardlister.WithMonitor(mon))
+	}
+	n.Lister, err = standardlister.New(ctx, listerParams...)
 	if err != nil {
 		return nil, err
 	}
@@ -142,13 +157,21 @@ func NewNode(ctx context.Context, o NodeOpts) (*Node, error) {
 	if err != nil {
 		return nil, err
 	}
-	n.AcctMgr, err = standardaccountmanager.New(ctx, standardaccountmanager.WithUnlocker(unl), standardaccountmanager.WithChecker(n.Checker),
-		standardaccountmanager.WithFetcher(n.Fetcher), standardaccountmanager.WithRuler(rulerSvc), standardaccountmanager.WithProcess(n.Process))
+	amParams := []standardaccountmanager.Parameter{standardaccountmanager.WithUnlocker(unl), standardaccountmanager.WithChecker(n.Checker),
+		standardaccountmanager.WithFetcher(n.Fetcher), standardaccountmanager.WithRuler(rulerSvc), standardaccountmanager.WithProcess(n.Process)}
+	if mon != nil {
+		amParams = append(amParams, standardaccountmanager.WithMonitor(mon))
+	}
+	n.AcctMgr, err = standardaccountmanager.New(ctx, amParams...)
 	if err != nil {
 		return nil, err
 	}
-	n.WalMgr, err = standardwalletmanager.New(ctx, standardwalletmanager.WithUnlocker(unl), standardwalletmanager.WithChecker(n.Checker),
-		standardwalletmanager.WithFetcher(n.Fetcher), standardwalletmanager.WithRuler(rulerSvc))
+	wmParams := []standardwalletmanager.Parameter{standardwalletmanager.WithUnlocker(unl), standardwalletmanager.WithChecker(n.Checker),
+		standardwalletmanager.WithFetcher(n.Fetcher), standardwalletmanager.WithRuler(rulerSvc)}
+	if mon != nil {
+		wmParams = append(wmParams, standardwalletmanager.WithMonitor(mon))
+	}
+	n.WalMgr, err = standardwalletmanager.New(ctx, wmParams...)
 	if err != nil {
 		return nil, err
 	}
@@ -463,4 +486,26 @@ func (c *Cluster) Close(ctx context.Context) {
 	for _, n := range c.Nodes {
 		n.Close(ctx)
 	}
+}
+
+// sharedPrometheus: the Prometheus metrics service registers its collectors with the process-wide registry, so there is
+// one per harness process.  nil when it cannot be created.
+var (
+	promOnce sync.Once
+	promSvc  *prometheusmetrics.Service
+)
+
+func sharedPrometheus(ctx context.Context) *prometheusmetrics.Service {
+	promOnce.Do(func() {
+		l, err := net.Listen("tcp", "127.0.0.1:0")
+		if err != nil {
+			return
+		}
+		addr := l.Addr().String()
+		l.Close()
+		if svc, err := prometheusmetrics.New(ctx, prometheusmetrics.WithAddress(addr)); err == nil {
+			promSvc = svc
+		}
+	})
+	return promSvc
 }
